@@ -668,6 +668,10 @@ pub fn check_c08(case: &RCase, log: &RunLog, m: &Modelled) -> Vec<Violation> {
             break;
         }
     }
+    // every started feature / rule still gets its Finished, the run ends with run-Finished
+    for vi in check_c03(case, log) {
+        out.push(v(&format!("C08/framing/{}", vi.sig.trim_start_matches("C03/")), vi.msg));
+    }
     match first_final_failure(m, log) {
         Some((p, ai)) => {
             let failing = &m.attempts[ai];
@@ -845,10 +849,15 @@ pub fn check_c09(case: &RCase, log: &RunLog, m: &Modelled) -> Vec<Violation> {
         if seen_keys != exp_keys {
             out.push(v("C09/world-callback-sequence", format!("{name} {:?}: World #{wid} was seen by {seen_keys:?}, the model runs {exp_keys:?} on the attempt's World", a.retries)));
         }
-        for (n, c) in seen.iter().enumerate() {
-            if c.counter as usize != n {
-                out.push(v("C09/world-state-not-threaded", format!("{name} {:?}: callback `{}` saw mutation counter {} on World #{wid}, expected {n}", a.retries, c.key, c.counter)));
+        // every callback mutates the World once, except one that panics before doing anything
+        let mut mutations = 0usize;
+        for c in &seen {
+            if c.counter as usize != mutations {
+                out.push(v("C09/world-state-not-threaded", format!("{name} {:?}: callback `{}` saw mutation counter {} on World #{wid}, expected {mutations}", a.retries, c.key, c.counter)));
                 break;
+            }
+            if c.oc != super::Oc::PanicEager {
+                mutations += 1;
             }
         }
     }
